@@ -7,7 +7,7 @@
 From Coq Require Import NArith List.
 Import ListNotations.
 From stdpp Require Import gmap.
-From CV Require Export Chain.Store.
+From CV Require Export Chain.Store Chain.Accum.
 Export ListNotations.
 Open Scope N_scope.
 
@@ -26,11 +26,17 @@ Record dump := mk_dump {
 
 Inductive cstep := CApply (b : N) | CRevert (b : N).
 
+(** the Tree bucket during one block step: the row-0 nodes core's update emits (leaf index,
+    hash name), the accumulator size it leads to, and the bucket entries that are new or
+    changed after the step ((row, col), hash name) *)
+Definition tstep : Type := list (N * N) * N * list ((nat * N) * N).
+
 Record case := mk_case {
   c_R : N;
   c_blocks : list (N * (N * diffs));
   c_probe : probe;
   c_steps : list (cstep * dump);
+  c_tree : list tstep;     (* one per step; [] = not recorded *)
 }.
 
 Definition map_eqb `{EqDecision A} (l : list (N * A)) (m : gmap N A) : bool :=
@@ -83,8 +89,92 @@ Fixpoint check_steps (R : N) (U : gmap N (N * diffs)) (pr : probe) (s : store)
       end
   end.
 
+(** ** The Tree bucket: the model's writes against the changes of the real bucket, and the
+    equality pattern of the real hashes against that of the symbolic ones *)
+Record tstate := TS {
+  t_acc : acc;
+  t_nm : gmap N digest;                      (* hash name ↦ symbolic hash *)
+  t_dn : gmap digest N;                      (* and back: the relation is one-to-one *)
+  t_applied : gmap N (list N * list (N * N)); (* block ↦ leaves before it, its row-0 writes *)
+}.
+
+Definition relate (st : tstate) (name : N) (d : digest) : option tstate :=
+  match t_nm st !! name, t_dn st !! d with
+  | Some d', Some name' => if bool_decide (d' = d) && (name' =? name) then Some st else None
+  | None, None => Some (TS (t_acc st) (<[name := d]> (t_nm st)) (<[d := name]> (t_dn st)) (t_applied st))
+  | _, _ => None
+  end.
+
+Fixpoint relate_all (st : tstate) (W : gmap (nat * N) digest) (ch : list ((nat * N) * N)) : option tstate :=
+  match ch with
+  | [] => Some st
+  | (k, name) :: r =>
+      match W !! k with
+      | None => None                          (* the bucket changed where the model writes nothing *)
+      | Some d => match relate st name d with Some st' => relate_all st' W r | None => None end
+      end
+  end.
+
+Definition check_tstep (R : N) (st : tstate) (c : cstep) (h : N) (t : tstep) : option tstate :=
+  let '(ups, n, ch) := t in
+  let '(b, gate) := match c with CApply b => (b, h <=? R) | CRevert b => (b, h - 1 <=? R) end in
+  if negb gate then (if bool_decide (ch = []) then Some st else None)
+  else
+    let a := t_acc st in
+    let lawL1 :=
+      match c with
+      | CApply _ => true
+      | CRevert _ =>
+          match t_applied st !! b with
+          | Some (lsprev, upsapp) =>
+              (n =? N.of_nat (length lsprev)) &&
+              bool_decide ((list_to_map ups : gmap N N) = list_to_map (restore lsprev upsapp))
+          | None =>   (* reverted although never applied (the block at require height + 1) *)
+              (n =? N.of_nat (length (a_leaves a))) &&
+              forallb (λ '(i, v), leaf_at (a_leaves a) i =? v) ups
+          end
+      end in
+    if negb lawL1 then None
+    else
+      let a' := acc_step a ups n in
+      let W : gmap (nat * N) digest := put_all ∅ (step_writes (a_leaves a') ups n) in
+      let chm : gmap (nat * N) N := list_to_map ch in
+      (* a write that does not show as a change must have written the value already there *)
+      if negb (forallb (λ '(k, d), match chm !! k with
+                                   | Some _ => true
+                                   | None => bool_decide (a_tree a !! k = Some d)
+                                   end) (map_to_list W)) then None
+      else
+        match relate_all st W ch with
+        | None => None
+        | Some st' =>
+            Some (TS a' (t_nm st') (t_dn st')
+                     match c with
+                     | CApply _ => <[b := (a_leaves a, ups)]> (t_applied st')
+                     | CRevert _ => delete b (t_applied st')
+                     end)
+        end.
+
+Fixpoint check_tree (R : N) (U : gmap N (N * diffs)) (st : tstate)
+         (steps : list (cstep * dump)) (ts : list tstep) : bool :=
+  match steps, ts with
+  | _, [] => true
+  | [], _ :: _ => false
+  | (c, _) :: steps', t :: ts' =>
+      let b := match c with CApply b | CRevert b => b end in
+      match U !! b with
+      | None => false
+      | Some (h, _) =>
+          match check_tstep R st c h t with
+          | Some st' => check_tree R U st' steps' ts'
+          | None => false
+          end
+      end
+  end.
+
 Definition check_case (c : case) : bool :=
-  check_steps (c_R c) (list_to_map (c_blocks c)) (c_probe c) empty_store (c_steps c).
+  check_steps (c_R c) (list_to_map (c_blocks c)) (c_probe c) empty_store (c_steps c)
+  && check_tree (c_R c) (list_to_map (c_blocks c)) (TS acc_empty ∅ ∅ ∅) (c_steps c) (c_tree c).
 
 Fixpoint mismatches_from (i : N) (cs : list case) : list N :=
   match cs with
